@@ -617,14 +617,14 @@ Definition dsum (m : list (Z * Z)) : Z := ksumf idf m.
 Definition dget (a : Z) (v : vstate) : Z := gof idf (kget a (v_dels v)).
 
 Lemma transfer_dels : forall h recv from to x v v',
-  transfer_shares h recv from to x v = Ok v' ->
+  transfer_shares_prefix h recv from to x v = Ok v' ->
   exists fd, kget from (v_dels v) = Some fd /\ dec_of_int x <= fd /\ recv = false /\
   v_tokens v' = v_tokens v /\ v_shares v' = v_shares v /\ v_slashes v' = v_slashes v /\
   v_dels v' = kset to (dget to v + dec_of_int x)
                 (if fd - dec_of_int x =? 0 then kdel from (v_dels v)
                  else kset from (fd - dec_of_int x) (v_dels v)).
 Proof.
-  unfold transfer_shares; intros h recv from to x v v' H.
+  unfold transfer_shares_prefix; intros h recv from to x v v' H.
   destruct (kget from (v_dels v)) as [fd|] eqn:Gf; [|discriminate].
   destruct recv; [discriminate|].
   destruct (fd <? dec_of_int x) eqn:L; [discriminate|]. apply Z.ltb_ge in L.
@@ -645,15 +645,29 @@ Proof.
   destruct C as [(_ & G & E & _)|(_ & G & _)]; rewrite G; cbn; [now rewrite E|reflexivity].
 Qed.
 
-(* the statement of the property for sender <> recipient *)
+Lemma transfer_shares_ok : forall h recv from to x v v',
+  transfer_shares h recv from to x v = Ok v' ->
+  from <> to /\ transfer_shares_prefix h recv from to x v = Ok v'.
+Proof.
+  unfold transfer_shares; intros h recv from to x v v' H.
+  destruct (Z.eqb_spec from to); [discriminate|]. auto.
+Qed.
+
+(* sender == recipient is refused *)
+Lemma self_transfer_refused_v : forall h recv a x v, transfer_shares h recv a a x v = Err.
+Proof. intros. unfold transfer_shares. now rewrite Z.eqb_refl. Qed.
+
+(* the statement of the property for an accepted transfer (then sender <> recipient) *)
 Lemma transfer_exact_v : forall h recv from to x v v',
-  from <> to -> transfer_shares h recv from to x v = Ok v' ->
+  transfer_shares h recv from to x v = Ok v' ->
+  from <> to /\
   dget from v' = dget from v - dec_of_int x /\
   dget to v' = dget to v + dec_of_int x /\
   (forall c, c <> from -> c <> to -> kget c (v_dels v') = kget c (v_dels v)) /\
   v_tokens v' = v_tokens v /\ v_shares v' = v_shares v /\ dec_of_int x <= dget from v.
 Proof.
-  intros h recv from to x v v' N H.
+  intros h recv from to x v v' H.
+  apply transfer_shares_ok in H as (N & H). split; [exact N|].
   apply transfer_dels in H as (fd & Gf & L & _ & T & S & _ & D).
   unfold dget. rewrite D, Gf. cbn [gof idf].
   split; [|split; [|split; [|repeat split; assumption]]].
@@ -666,9 +680,9 @@ Proof.
     destruct (fd - dec_of_int x =? 0); [now rewrite kget_kdel_other|now rewrite kget_kset_other].
 Qed.
 
-(* what a transfer to oneself does instead (the defect, stated for every state) *)
-Lemma self_transfer_v : forall h recv a x v v',
-  transfer_shares h recv a a x v = Ok v' ->
+(* PRE-FIX code only (before commit 458669b): what a transfer to oneself did, in every state *)
+Lemma prefix_self_transfer_v : forall h recv a x v v',
+  transfer_shares_prefix h recv a a x v = Ok v' ->
   dget a v' = dget a v + dec_of_int x /\ v_shares v' = v_shares v /\ v_tokens v' = v_tokens v.
 Proof.
   intros h recv a x v v' H.
@@ -711,13 +725,14 @@ Proof.
 Qed.
 
 Lemma transfer_inv : forall h recv from to x v v',
-  from <> to -> 0 <= x -> VInv v -> transfer_shares h recv from to x v = Ok v' -> VInv v'.
+  0 <= x -> VInv v -> transfer_shares h recv from to x v = Ok v' -> VInv v'.
 Proof.
-  intros h recv from to x v v' N X [F SD SU NN K T] H.
+  intros h recv from to x v v' X [F SD SU NN K T] H.
+  apply transfer_shares_ok in H as (N & H).
   pose proof (transfer_dels _ _ _ _ _ _ _ H) as (fd & Gf & L & _ & Tk & Sh & _ & D).
   pose proof (dec_of_int_nonneg x X) as X'.
   (* replay the blocks for the distribution part *)
-  unfold transfer_shares in H. rewrite Gf in H.
+  unfold transfer_shares_prefix in H. rewrite Gf in H.
   destruct recv; [discriminate|].
   destruct (fd <? dec_of_int x); [discriminate|].
   apply bind_ok in H as (v1 & W & H).
@@ -973,13 +988,6 @@ Qed.
 Lemma put_val_inv : forall s i v, SInv s -> VInv v -> SInv (put_val i v s).
 Proof. unfold SInv, put_val; intros; cbn. now apply Forall_vupd. Qed.
 
-Definition no_self (o : op) : Prop :=
-  match o with
-  | Transfer _ from to _ => from <> to
-  | TransferFrom _ _ from to _ => from <> to
-  | _ => True
-  end.
-
 Lemma validate_unbond_nonneg : forall a amt v sh,
   VInv v -> 0 <= amt -> validate_unbond a amt v = Ok sh -> 0 <= sh.
 Proof.
@@ -994,17 +1002,17 @@ Proof.
 Qed.
 
 Lemma do_transfer_inv : forall v from to x s s',
-  from <> to -> 0 <= x -> SInv s -> do_transfer v from to x s = Ok s' -> SInv s'.
+  0 <= x -> SInv s -> do_transfer v from to x s = Ok s' -> SInv s'.
 Proof.
-  unfold do_transfer; intros v from to x s s' N X I H.
+  unfold do_transfer; intros v from to x s s' X I H.
   destruct (get_val v s) as [vs|] eqn:G; [|discriminate].
   apply bind_ok in H as (vs' & T & H). inversion H; subst.
   apply put_val_inv; [assumption|]. eapply transfer_inv; eauto. eapply get_val_inv; eauto.
 Qed.
 
-Lemma exec_inv : forall s o s', SInv s -> no_self o -> exec s o = Ok s' -> SInv s'.
+Lemma exec_inv : forall s o s', SInv s -> exec s o = Ok s' -> SInv s'.
 Proof.
-  intros s o s' I NS H. destruct o; cbn [exec no_self] in *.
+  intros s o s' I H. destruct o; cbn [exec] in *.
   - (* Delegate *)
     destruct (amt <=? 0) eqn:A; [discriminate|]. apply Z.leb_gt in A.
     destruct (get_val v s) as [vs|] eqn:G; [|discriminate].
@@ -1047,11 +1055,11 @@ Proof.
     destruct (x <? 0); inversion H; subst. exact I.
   - (* Transfer *)
     destruct (x <=? 0) eqn:A; [discriminate|]. apply Z.leb_gt in A.
-    eapply do_transfer_inv; [exact NS| |exact I|exact H]. lia.
+    eapply do_transfer_inv; [|exact I|exact H]. lia.
   - (* TransferFrom *)
     destruct (x <=? 0) eqn:A; [discriminate|]. apply Z.leb_gt in A.
     destruct (aget (v, from, spender) (s_allow s) <? x); [discriminate|].
-    eapply do_transfer_inv; [exact NS| | |exact H]; [lia|exact I].
+    eapply do_transfer_inv; [| |exact H]; [lia|exact I].
   - inversion H; subst. exact I.
   - inversion H; subst. exact I.
   - (* SlashVal *)
@@ -1060,16 +1068,16 @@ Proof.
     apply put_val_inv; [assumption|]. eapply slash_v_inv; [eapply get_val_inv; eauto|exact W].
 Qed.
 
-Lemma step_inv : forall s o, SInv s -> no_self o -> SInv (fst (step s o)).
+Lemma step_inv : forall s o, SInv s -> SInv (fst (step s o)).
 Proof.
-  intros s o I N. unfold step. destruct (exec s o) as [s'| |] eqn:E; cbn [fst]; [|assumption|assumption].
+  intros s o I. unfold step. destruct (exec s o) as [s'| |] eqn:E; cbn [fst]; [|assumption|assumption].
   eapply exec_inv; eauto.
 Qed.
 
-Theorem run_inv : forall ops s, SInv s -> Forall no_self ops -> SInv (run s ops).
+Theorem run_inv : forall ops s, SInv s -> SInv (run s ops).
 Proof.
-  unfold run. induction ops as [|o r IH]; intros s I F; cbn [fold_left]; [assumption|].
-  inversion F; subst. apply IH; [|assumption]. now apply step_inv.
+  unfold run. induction ops as [|o r IH]; intros s I; cbn [fold_left]; [assumption|].
+  apply IH. now apply step_inv.
 Qed.
 
 (* ====================================================================== *)
@@ -1132,8 +1140,8 @@ Definition val_dget (s : state) (v a : Z) : Z :=
   match get_val v s with Some vs => dget a vs | None => 0 end.
 
 Lemma do_transfer_exact : forall v from to x s s',
-  from <> to -> do_transfer v from to x s = Ok s' ->
-  exists vs vs', get_val v s = Some vs /\ get_val v s' = Some vs' /\
+  do_transfer v from to x s = Ok s' ->
+  from <> to /\ exists vs vs', get_val v s = Some vs /\ get_val v s' = Some vs' /\
     dget from vs' = dget from vs - dec_of_int x /\
     dget to vs' = dget to vs + dec_of_int x /\
     (forall c, c <> from -> c <> to -> kget c (v_dels vs') = kget c (v_dels vs)) /\
@@ -1142,22 +1150,23 @@ Lemma do_transfer_exact : forall v from to x s s',
     (forall w, w <> v -> get_val w s' = get_val w s) /\
     s_allow s' = s_allow s /\ has_receiving from v s = false.
 Proof.
-  unfold do_transfer; intros v from to x s s' N H.
+  unfold do_transfer; intros v from to x s s' H.
   destruct (get_val v s) as [vs|] eqn:G; [|discriminate].
   apply bind_ok in H as (vs' & T & H). inversion H; subst; clear H.
-  pose proof (transfer_dels _ _ _ _ _ _ _ T) as (_ & _ & _ & RV & _).
-  pose proof (transfer_exact_v _ _ _ _ _ _ _ N T) as (A & B & C & D & E & F).
-  exists vs, vs'. split; [reflexivity|]. split; [eapply get_put_same; eauto|].
+  pose proof (transfer_shares_ok _ _ _ _ _ _ _ T) as (N & TP).
+  pose proof (transfer_dels _ _ _ _ _ _ _ TP) as (_ & _ & _ & RV & _).
+  pose proof (transfer_exact_v _ _ _ _ _ _ _ T) as (_ & A & B & C & D & E & F).
+  split; [exact N|]. exists vs, vs'. split; [reflexivity|]. split; [eapply get_put_same; eauto|].
   repeat (split; [assumption|]).
   split; [intros w Nw; eapply get_put_other; eauto|]. split; [reflexivity|exact RV].
 Qed.
 
-(* C11, transfer part (sender <> recipient): exactly x shares move, the validator's tokens and total
-   shares, every other delegation, every other validator and all allowances are untouched; the call is
-   accepted only for 0 < x <= sender's shares and no incoming redelegation *)
+(* C11, transfer part: an accepted transfer has sender <> recipient and moves exactly x shares; the
+   validator's tokens and total shares, every other delegation, every other validator and all allowances
+   are untouched; accepted only for 0 < x <= sender's shares and no incoming redelegation *)
 Theorem transfer_exact : forall s s' v from to x,
-  from <> to -> exec s (Transfer v from to x) = Ok s' ->
-  exists vs vs', get_val v s = Some vs /\ get_val v s' = Some vs' /\
+  exec s (Transfer v from to x) = Ok s' ->
+  from <> to /\ exists vs vs', get_val v s = Some vs /\ get_val v s' = Some vs' /\
     dget from vs' = dget from vs - dec_of_int x /\
     dget to vs' = dget to vs + dec_of_int x /\
     (forall c, c <> from -> c <> to -> kget c (v_dels vs') = kget c (v_dels vs)) /\
@@ -1166,10 +1175,10 @@ Theorem transfer_exact : forall s s' v from to x,
     (forall w, w <> v -> get_val w s' = get_val w s) /\
     s_allow s' = s_allow s /\ has_receiving from v s = false /\ 0 < x.
 Proof.
-  intros s s' v from to x N H. cbn [exec] in H.
+  intros s s' v from to x H. cbn [exec] in H.
   destruct (x <=? 0) eqn:A; [discriminate|]. apply Z.leb_gt in A.
-  destruct (do_transfer_exact _ _ _ _ _ _ N H) as (vs & vs' & P).
-  exists vs, vs'. intuition.
+  destruct (do_transfer_exact _ _ _ _ _ _ H) as (N & vs & vs' & P).
+  split; [exact N|]. exists vs, vs'. intuition.
 Qed.
 
 (* allowances *)
@@ -1210,7 +1219,8 @@ Qed.
 (* C11, transferFrom: accepted only within the allowance, which drops by exactly x (nothing else in the
    allowance table changes), and the shares move exactly as for transfer *)
 Theorem transfer_from_exact : forall s s' v spender from to x,
-  from <> to -> exec s (TransferFrom v spender from to x) = Ok s' ->
+  exec s (TransferFrom v spender from to x) = Ok s' ->
+  from <> to /\
   x <= aget (v, from, spender) (s_allow s) /\
   aget (v, from, spender) (s_allow s') = aget (v, from, spender) (s_allow s) - x /\
   (forall k, k <> (v, from, spender) -> aget k (s_allow s') = aget k (s_allow s)) /\
@@ -1222,12 +1232,12 @@ Theorem transfer_from_exact : forall s s' v spender from to x,
     dec_of_int x <= dget from vs /\
     (forall w, w <> v -> get_val w s' = get_val w s) /\ 0 < x.
 Proof.
-  intros s s' v spender from to x N H. cbn [exec] in H.
+  intros s s' v spender from to x H. cbn [exec] in H.
   destruct (x <=? 0) eqn:A; [discriminate|]. apply Z.leb_gt in A.
   destruct (aget (v, from, spender) (s_allow s) <? x) eqn:L; [discriminate|]. apply Z.ltb_ge in L.
-  destruct (do_transfer_exact _ _ _ _ _ _ N H) as (vs & vs' & G & G' & P1 & P2 & P3 & P4 & P5 & P6 & P7 & P8 & _).
+  destruct (do_transfer_exact _ _ _ _ _ _ H) as (N & vs & vs' & G & G' & P1 & P2 & P3 & P4 & P5 & P6 & P7 & P8 & _).
   cbn [s_allow set_allow] in P8. rewrite P8.
-  split; [assumption|]. split; [apply aget_aset_same|]. split; [intros k Nk; now apply aget_aset_other|].
+  split; [exact N|]. split; [assumption|]. split; [apply aget_aset_same|]. split; [intros k Nk; now apply aget_aset_other|].
   exists vs, vs'. unfold get_val in *. cbn [s_vals set_allow] in *. intuition.
 Qed.
 
@@ -1255,43 +1265,45 @@ Qed.
 Theorem failed_call_no_effect : forall s o s', step s o = (s', false) -> s' = s.
 Proof. intros s o s'. unfold step. destruct (exec s o); intros H; inversion H; reflexivity. Qed.
 
-(* sender == recipient: the delegation grows by x although nothing was received, for every state
-   in which the call is accepted *)
-Theorem self_transfer_inflates : forall s s' v a x,
-  exec s (Transfer v a a x) = Ok s' ->
-  exists vs vs', get_val v s = Some vs /\ get_val v s' = Some vs' /\
-    dget a vs' = dget a vs + dec_of_int x /\ v_shares vs' = v_shares vs /\ v_tokens vs' = v_tokens vs /\ 0 < x.
+(* C11: a transfer to oneself changes nothing — it is refused, whatever the state and the amount *)
+Theorem self_transfer_refused : forall s v a x, step s (Transfer v a a x) = (s, false).
 Proof.
-  intros s s' v a x H. cbn [exec] in H.
-  destruct (x <=? 0) eqn:A; [discriminate|]. apply Z.leb_gt in A.
-  unfold do_transfer in H. destruct (get_val v s) as [vs|] eqn:G; [|discriminate].
-  apply bind_ok in H as (vs' & T & H). inversion H; subst; clear H.
-  exists vs, vs'. split; [reflexivity|]. split; [eapply get_put_same; eauto|].
-  destruct (self_transfer_v _ _ _ _ _ _ T) as (P1 & P2 & P3). auto.
+  intros s v a x. unfold step. cbn [exec]. destruct (x <=? 0); [reflexivity|].
+  unfold do_transfer. destruct (get_val v s); [|reflexivity].
+  now rewrite self_transfer_refused_v.
+Qed.
+
+Theorem self_transfer_from_refused : forall s v spender a x, step s (TransferFrom v spender a a x) = (s, false).
+Proof.
+  intros s v spender a x. unfold step. cbn [exec]. destruct (x <=? 0); [reflexivity|].
+  destruct (aget (v, a, spender) (s_allow s) <? x); [reflexivity|].
+  unfold do_transfer. cbn [get_val s_vals set_allow]. unfold get_val.
+  cbn [s_vals set_allow s_height]. fold (get_val v s). destruct (get_val v s); [|reflexivity].
+  now rewrite self_transfer_refused_v.
 Qed.
 
 (* ---------- corollaries of the invariant for histories from genesis ---------- *)
 Theorem sum_shares : forall n ops v vs,
-  Forall no_self ops -> get_val v (run (gen_state n) ops) = Some vs -> dsum (v_dels vs) = v_shares vs.
+  get_val v (run (gen_state n) ops) = Some vs -> dsum (v_dels vs) = v_shares vs.
 Proof.
-  intros n ops v vs F G. apply (I_sum vs). eapply get_val_inv; [|exact G].
-  apply run_inv; [apply gen_state_inv|assumption].
+  intros n ops v vs G. apply (I_sum vs). eapply get_val_inv; [|exact G].
+  apply run_inv. apply gen_state_inv.
 Qed.
 
 Theorem refcount : forall n ops v vs p,
-  Forall no_self ops -> get_val v (run (gen_state n) ops) = Some vs ->
+  get_val v (run (gen_state n) ops) = Some vs ->
   href p vs = cnt_start p (v_start vs) + cnt_slash p (v_slashes vs) + b2z (p =? v_period vs - 1).
 Proof.
-  intros n ops v vs p F G. apply (F_ref vs). apply (I_f1 vs). eapply get_val_inv; [|exact G].
-  apply run_inv; [apply gen_state_inv|assumption].
+  intros n ops v vs p G. apply (F_ref vs). apply (I_f1 vs). eapply get_val_inv; [|exact G].
+  apply run_inv. apply gen_state_inv.
 Qed.
 
 Theorem start_iff_delegation : forall n ops v vs a,
-  Forall no_self ops -> get_val v (run (gen_state n) ops) = Some vs ->
+  get_val v (run (gen_state n) ops) = Some vs ->
   khas a (v_dels vs) = khas a (v_start vs).
 Proof.
-  intros n ops v vs a F G. apply (I_keys vs). eapply get_val_inv; [|exact G].
-  apply run_inv; [apply gen_state_inv|assumption].
+  intros n ops v vs a G. apply (I_keys vs). eapply get_val_inv; [|exact G].
+  apply run_inv. apply gen_state_inv.
 Qed.
 
 (* ====================================================================== *)
@@ -1345,13 +1357,13 @@ Proof.
 Qed.
 
 Theorem withdraw_live : forall n ops v vs a d,
-  Forall no_self ops -> let s := run (gen_state n) ops in
+  let s := run (gen_state n) ops in
   get_val v s = Some vs -> kget a (v_dels vs) = Some d -> 0 < d ->
   snd (step s (Withdraw v a)) = true.
 Proof.
-  intros n ops v vs a d F s G Gd D.
+  intros n ops v vs a d s G Gd D.
   assert (VI : VInv vs).
-  { eapply get_val_inv; [|exact G]. apply run_inv; [apply gen_state_inv|assumption]. }
+  { eapply get_val_inv; [|exact G]. apply run_inv. apply gen_state_inv. }
   destruct (withdraw_live_v (s_height s) a vs d VI Gd D) as (v' & W).
   unfold step. cbn [exec]. rewrite G, W. reflexivity.
 Qed.
@@ -1452,14 +1464,14 @@ Proof.
 Qed.
 
 Theorem undelegate_live : forall n ops v vs a d amt sh,
-  Forall no_self ops -> let s := run (gen_state n) ops in
+  let s := run (gen_state n) ops in
   get_val v s = Some vs -> kget a (v_dels vs) = Some d -> 0 < d ->
   0 < amt -> validate_unbond a amt vs = Ok sh -> ubd_entries a v s < max_entries ->
   snd (step s (Undelegate v a amt)) = true.
 Proof.
-  intros n ops v vs a d amt sh F s G Gd D A V U.
+  intros n ops v vs a d amt sh s G Gd D A V U.
   assert (VI : VInv vs).
-  { eapply get_val_inv; [|exact G]. apply run_inv; [apply gen_state_inv|assumption]. }
+  { eapply get_val_inv; [|exact G]. apply run_inv. apply gen_state_inv. }
   assert (0 <= sh) by (eapply validate_unbond_nonneg; [exact VI| |exact V]; lia).
   pose proof (validate_unbond_le _ _ _ _ _ Gd V).
   destruct (unbond_live_v (s_height s) a sh vs d VI Gd D ltac:(lia)) as (r & R).
@@ -1471,41 +1483,25 @@ Proof.
 Qed.
 
 (* ====================================================================== *)
-(* 12. refutation witnesses and non-vacuity                                *)
+(* 12. the PRE-FIX defect (documentation only) and non-vacuity             *)
 (* ====================================================================== *)
 Definition wit_setup : list op := [Block; Delegate 0 0 (100 * prec); Block].
 Definition wit_pre : state := run (gen_state 2) wit_setup.
 
-(* "a transfer to oneself changes nothing" is false of the code: after delegating 100 FX, account 0
-   sends itself 40 shares and holds 40 shares more; the validator's shares are unchanged, so the
-   delegations no longer sum to them *)
-Theorem self_transfer_witness :
-  exists s', exec wit_pre (Transfer 0 0 0 40) = Ok s' /\
-    val_dget wit_pre 0 0 = dec_of_int (100 * prec) /\
-    val_dget s' 0 0 = dec_of_int (100 * prec) + dec_of_int 40 /\
-    (exists vs, get_val 0 s' = Some vs /\ v_shares vs = dec_of_int (200 * prec) /\
-                dsum (v_dels vs) = dec_of_int (200 * prec) + dec_of_int 40).
+(* PRE-FIX code only: with the body of handlerTransferShares as it was before commit 458669b
+   (transfer_shares_prefix, i.e. without the sender <> recipient guard), account 0 — having delegated
+   100 FX — sends itself 40 shares and holds 40 shares more while the validator's shares are unchanged.
+   This was finding C11-1; the current function refuses the call (self_transfer_refused). *)
+Theorem prefix_self_transfer_witness :
+  exists vs vs', get_val 0 wit_pre = Some vs /\
+    transfer_shares_prefix (s_height wit_pre) false 0 0 40 vs = Ok vs' /\
+    dget 0 vs = dec_of_int (100 * prec) /\
+    dget 0 vs' = dec_of_int (100 * prec) + dec_of_int 40 /\
+    v_shares vs' = dec_of_int (200 * prec) /\
+    dsum (v_dels vs') = dec_of_int (200 * prec) + dec_of_int 40.
 Proof.
-  eexists. split; [vm_compute; reflexivity|].
-  split; [vm_compute; reflexivity|]. split; [vm_compute; reflexivity|].
-  eexists. split; [vm_compute; reflexivity|]. split; vm_compute; reflexivity.
-Qed.
-
-Theorem sum_shares_refuted :
-  exists n ops v vs, get_val v (run (gen_state n) ops) = Some vs /\ dsum (v_dels vs) <> v_shares vs.
-Proof.
-  exists 2%nat, (wit_setup ++ [Transfer 0 0 0 40]), 0. eexists.
-  split; [vm_compute; reflexivity|]. vm_compute. discriminate.
-Qed.
-
-(* sending oneself ALL shares also corrupts the F1 bookkeeping: the delegation doubles, and its
-   starting info is rewritten from the zero value (period 0, height 0) without a reference *)
-Theorem refcount_refuted :
-  exists n ops v vs p, get_val v (run (gen_state n) ops) = Some vs /\
-    href p vs <> cnt_start p (v_start vs) + cnt_slash p (v_slashes vs) + b2z (p =? v_period vs - 1).
-Proof.
-  exists 2%nat, (wit_setup ++ [Transfer 0 0 0 (100 * prec)]), 0. eexists. exists 0.
-  split; [vm_compute; reflexivity|]. vm_compute. discriminate.
+  eexists. eexists. split; [vm_compute; reflexivity|].
+  split; [vm_compute; reflexivity|]. repeat split; vm_compute; reflexivity.
 Qed.
 
 Definition all_ok (s : state) (ops : list op) : bool :=
@@ -1524,10 +1520,12 @@ Definition ex_ops : list op :=
    Mature].
 
 Theorem nonvacuous :
-  Forall no_self ex_ops /\ all_ok (gen_state 2) ex_ops = true /\
+  all_ok (gen_state 2) ex_ops = true /\
   val_dget (run (gen_state 2) ex_ops) 0 3 = dec_of_int 7 /\
-  aget (0, 1, 2) (s_allow (run (gen_state 2) ex_ops)) = 0.
+  aget (0, 1, 2) (s_allow (run (gen_state 2) ex_ops)) = 0 /\
+  0 < val_dget (run (gen_state 2) ex_ops) 0 1 /\
+  step (run (gen_state 2) ex_ops) (Transfer 0 1 1 1) = (run (gen_state 2) ex_ops, false).
 Proof.
-  split; [repeat constructor; cbn; lia|].
-  split; [vm_compute; reflexivity|]. split; vm_compute; reflexivity.
+  split; [vm_compute; reflexivity|]. split; [vm_compute; reflexivity|].
+  split; [vm_compute; reflexivity|]. split; [vm_compute; reflexivity|]. apply self_transfer_refused.
 Qed.
